@@ -1392,7 +1392,7 @@ class Program:
             self._hints[key] = res
         return res
 
-    def leaf_items(self, sub, value_of, limit=24):
+    def leaf_items(self, sub, value_of, limit=40):
         """[(closed value term, {atom: value})] for the outcomes of a loop-free body; None when something is not closed"""
         ps = sub.paths(limit=limit * 2) if not sub.loops else None
         leaves = [(t, st) for t, st, _ in ps] if ps is not None else sub.ret_leaves()
@@ -1672,6 +1672,12 @@ class Program:
                         r = T.ref(("M", p), path2)
                 else:
                     raise KeyError
+            elif op == "classsel":
+                c_ = go(a[0])
+                if c_.op == "agg" and c_.args[3] in ("ELF32", "ELF64"):
+                    r = go(a[1] if c_.args[3] == "ELF32" else a[2])      # the class has become known: that arm
+                else:
+                    r = Term("classsel", c_, go(a[1]), go(a[2]))
             else:
                 r = Term(op, *[go(y) for y in a])
             memo[x] = r
